@@ -1413,6 +1413,47 @@ pub fn c18_scenarios(ns: &[u64]) -> Vec<Scn> {
             }
         }
     }
+    // structural operations (add_stream, unsubscribe, into_single/into_multi,
+    // receiver clone/drop) frozen anywhere while a sender - alone or with a
+    // sibling - or a consumer probes a full / one-value queue (the full queue
+    // makes the sender rescan the stream list)
+    for &n in ns {
+        for w in [WaitK::Busy, WaitK::Yield(0, 0)] {
+            let cfg = q(Flavour::B, n, w);
+            for st in [St::Full, St::One] {
+                let fams: Vec<(&str, Vec<Op>, Vec<Vec<Op>>)> = vec![
+                    ("add-stream", vec![opd(CloneH, R0, R1)], vec![vec![opd(AddStream, R1, 9), op(DropH, 9)]]),
+                    ("unsub-side", vec![opd(AddStream, R0, R1)], vec![vec![op(Unsub, R1)]]),
+                    ("convert", vec![opd(AddStream, R0, R1)], vec![vec![op(IntoSingle, R1), op(IntoMulti, R1)]]),
+                    ("clone-drop", vec![opd(CloneH, R0, R1)], vec![vec![opd(CloneH, R1, 9), op(DropH, R1)]]),
+                    (
+                        "add+unsub",
+                        vec![opd(CloneH, R0, R1), opd(AddStream, R0, R2)],
+                        vec![vec![opd(AddStream, R1, 9)], vec![op(Unsub, R2)]],
+                    ),
+                ];
+                for (fname, pre, others) in fams {
+                    for probe in ["send1", "send2", "recv"] {
+                        let mut s = Scn::new(&name(&format!("c18-solo-vs-{}[{:?}]", fname, st), probe), cfg);
+                        s.prefix = pre.clone();
+                        if probe == "send2" {
+                            s.prefix.push(opd(CloneH, S0, S1));
+                        }
+                        s.prefix.extend(prep(st, n, &[R0]));
+                        let mut threads = others.clone();
+                        threads.push(match probe {
+                            "send1" => vec![opv(TrySend, S0, 21)],
+                            "send2" => vec![opv(TrySend, S1, 21)],
+                            _ => vec![op(TryRecv, R0)],
+                        });
+                        s.solo = Some(threads.len() - 1);
+                        s.threads = threads;
+                        out.push(s);
+                    }
+                }
+            }
+        }
+    }
     for s in out.iter_mut() {
         s.tags = &["C18"];
         s.hang_prop = "C18";
@@ -1708,14 +1749,13 @@ pub fn tasks(prop: &str, tier: Tier) -> Vec<Task> {
                     thorough,
                 );
             }
-            if prop == "C06" {
-                push_matrix(&mut t, thorough);
-            }
-            if prop == "C06" || prop == "C03" {
-                // structural scenarios end with the same probe
-                push_all(&mut t, c11_scenarios(ns_q, false), thorough);
-                push_all(&mut t, c12_scenarios(&[2]), thorough);
-            }
+            // delivery, order, capacity and quiescence are judged in every
+            // execution of the role matrix and of the structural scenarios too:
+            // a change may break them only next to add_stream / a handle drop
+            push_matrix(&mut t, thorough);
+            push_all(&mut t, c11_scenarios(ns_q, false), thorough);
+            push_all(&mut t, c12_scenarios(&[2]), thorough);
+            push_all(&mut t, c10_scenarios(ns_q, false), thorough);
         }
         "C04" => {
             push_all(&mut t, c04_scenarios(ns), thorough);
